@@ -21,13 +21,16 @@ def check(run):
     order = sorted(range(len(LEX_BASE)), key=lambda i: sum(len(m) for u in LEX_BASE[i][1] for m in u[1]) + 4 * sum(len(u[3]) for u in LEX_BASE[i][1]))
     found = False
     for i in order:
-        dev, units = LEX_BASE[i]
+        dev, units = LEX_BASE[i][:2]
+        opts = LEX_BASE[i][2] if len(LEX_BASE[i]) > 2 else {}
         if found and run.unfinished:
             break               # the verdict is already a violation; the remaining explorations would only time out
         cap = 1800 if thorough else 300
         if len(run.unfinished) >= 3:
             cap = 60            # the run cannot end as a pass any more: look for counterexamples only briefly
         canon = ';'.join((':' if ab else '') + ':'.join(parts) + ('?' if q else '') + ((' ' + ','.join(a.decode() for a in args)) if args else '') for ab, parts, q, args in units)
+        if opts:
+            canon += (';' if opts.get('trailing') else '') + ' LF ' + opts.get('probe', b'').decode().strip()
         st = run.explore(f'{dev}: "{canon}" -- every case combination (symbolic), every short/long choice, up to {total_ws} extra white-space bytes (each over all 32 values) in any slots, LF / CR LF',
                          SPEC + ({'msg': i, 'total_ws': total_ws, 'max_ws': 2 if not thorough else 3},), cap)
         records.extend(st['records'])
@@ -43,7 +46,7 @@ def check(run):
         if 'sample' in r and len(cov['samples']) < 14:
             cov['samples'].append(r['sample'])
     cov['vacuity']['base_messages_explored'] = len(seen)
-    cov['bounds'] = {'base_messages': len(LEX_BASE), 'devices': sorted({d for d, _ in LEX_BASE}), 'extra_white_space_bytes_per_message': total_ws,
+    cov['bounds'] = {'base_messages': len(LEX_BASE), 'devices': sorted({e[0] for e in LEX_BASE}), 'extra_white_space_bytes_per_message': total_ws,
                      'white_space_slots': 'before each unit, between header and parameters (at least one), before and after each comma, before ";" and before the terminator',
                      'outside': 'more white-space bytes per message; white space next to ":" inside a header (not among the positions the property lists); case of character data arguments (ON/OFF is scoped out by the anchors)'}
     run.evidence['assumptions'] = ['the canonical spelling is the long form in upper case with single blanks and LF; every variant is compared with it inside the same path']
